@@ -259,6 +259,14 @@ def cases(tier: str, seed: int):
                'cuts': rng.choice([0, 1, 2, 5, 20]), 'mode': rng.choice(['local', 'local', 'remote'])}
 
 
+    # (c) bodies at and around the sizes the proxy itself works in (128 KiB re-chunking unit, 64 KiB send unit)
+    for k, size in enumerate([65535, 65536, 65537, 131071, 131072, 131073, 262144, 393216] * (1 if tier == 'quick' else 6)):
+        for fr in ('chunked', 'cl', 'chunked-ext'):
+            i += 1
+            yield {'seed': seed, 'i': i, 'fr': fr, 'flags': 'default', 'size': size, 'pos': 1 + (k % 2), 'cuts': rng.choice([0, 3, 20]),
+                   'mode': rng.choice(['local', 'remote'])}
+
+
 def floors(tier: str) -> Dict[str, int]:
     fl = {'later_position': 50, 'distinct_nontrivial': 300}
     for z in ZONES5:
